@@ -274,6 +274,10 @@ func runConcWorkload(c core.Case, res *core.Result) *concOutcome {
 	defer os.RemoveAll(dir)
 	cfg := gen.Config(r)
 	cfg.MemtableByteThreshold = []int{1, 64, 200, 300, 1000}[r.Intn(5)]
+	if c.Int("racebuild", 0) == 1 && cfg.MemtableByteThreshold == 1 {
+		// under the race detector a flush + compaction per commit is too slow to be useful
+		cfg.MemtableByteThreshold = 150
+	}
 	cfg.ImmutableBuffer = []int{0, 0, 1, 2, 4}[r.Intn(5)]
 	nk := 3 + r.Intn(maxHistKeys-2)
 	keys := gen.Keys(r, "hostile", nk)
